@@ -14,8 +14,10 @@ def run(ck):
     n = int((48000 if thorough else 150) * ck.scale)
     for i in range(16):
         jobs.append(dict(exe=asan, args=["--mode", "random", "--cases", n, "--seed", sa.subseed(ck, 100 + i)], label="random%d" % i, timeout=3600))
+    # messages of 512 MiB +- 1 (where a 32-bit bit count wraps); in thorough also 2 GiB in a single append and 4 GiB, all algorithms
+    plain = ck.build("plain", ["crypto_mon"])["crypto_mon"]
+    jobs.append(dict(exe=plain, args=["--mode", "big"] + (["--huge"] if thorough else []), label="big", timeout=7200))
     if thorough:
-        plain = ck.build("plain", ["crypto_mon"])["crypto_mon"]
         vg = ["valgrind", "-q", "--error-exitcode=97", "--track-origins=no", plain]
         for i in range(4):
             jobs.append(dict(exe=vg[0], args=vg[1:] + ["--mode", "random", "--cases", 60, "--seed", sa.subseed(ck, 200 + i)], label="memcheck%d" % i, timeout=3600))
@@ -26,7 +28,7 @@ def run(ck):
     ck.assumptions += ["libgcrypt (independent of the OpenSSL + bundled MD5/SHA-1 code cppcms uses here) computes the standard functions; guarded by embedded RFC/FIPS/SP800-38A vectors checked against both"]
     ck.finish("exploration",
               "every message length 0..4300 x 6 algorithms x fresh and reused objects x random append chunkings, HMAC keys of length 0..3 block sizes with 0..3 reuses, "
-              "random long messages, AES-CBC 128/192/256 with explicit and nonce IVs over 0..2000 blocks in one or several calls, compared with libgcrypt; hex key parsing. "
+              "random long messages, messages of 512 MiB +- 1 byte (thorough: 2 GiB in one append, 4 GiB), AES-CBC 128/192/256 with explicit and nonce IVs over 0..2000 blocks in one or several calls, compared with libgcrypt; hex key parsing. "
               "non-trivial = distinct (message,key) inputs + distinct lengths + distinct chunking shapes",
               "checks_total", "nontrivial_total", min_evals=50000,
               required_nonzero=("digest_checks", "hmac_checks", "cbc_checks", "cbc_nonce_checks", "standard_vectors", "hexkey_checks"))
